@@ -177,6 +177,43 @@ func c01Flush(c *core.Ctx) {
 	if nW == 0 {
 		c.Missing("HTTP frame writer (marshals and writes to its io.Writer parameter)")
 	}
+	// ... and only there: net/http (HTTP/1.1) gives up on the unread rest of the request body at the moment the reply
+	// is first flushed, so what gets flushed, and when, is the frame writer's business alone — a header setter that
+	// flushes "so that Header() returns early" makes a handler that has not yet read all its requests lose them
+	for _, fn := range p.LibFuncs("httpgrpc") {
+		root := fn
+		for root.Parent() != nil {
+			root = root.Parent()
+		}
+		if isHTTPFrameWriter(root) {
+			continue
+		}
+		// a write-and-flush tail of a frame writer
+		if site := core.InlineSite[root]; site != nil && isHTTPFrameWriter(site.Parent()) {
+			continue
+		}
+		callers := callSitesOf(root)
+		tail := len(callers) > 0
+		for _, cs := range callers {
+			cr := cs.Parent()
+			for cr.Parent() != nil {
+				cr = cr.Parent()
+			}
+			if !isHTTPFrameWriter(cr) {
+				tail = false
+			}
+		}
+		if tail {
+			continue
+		}
+		core.Instrs(fn, func(in ssa.Instruction) {
+			call, ok := in.(*ssa.Call)
+			if !ok || core.InfoOf(&call.Call).Name != "Flush" {
+				return
+			}
+			c.Fail(core.FuncName(fn)+":flushes-outside-the-frame-writer", in.Pos(), "the reply is flushed outside the frame writer: on HTTP/1.1 the first flush of the reply makes net/http discard what is still unread of the request body, so a handler that has not consumed all its request messages yet (it sent its headers first) never gets them")
+		})
+	}
 
 	// (b) what the reply is written through is the ResponseWriter the handler was given, or something that keeps its
 	// Flush: every value of type http.ResponseWriter (or io.Writer made from one) that the server side stores into a
